@@ -146,7 +146,11 @@ impl<L: Language> SerializableRuleConfig<L> {
         .core
         .get_matcher_with_hint(env.clone(), CheckHint::Rewriter(&vars))
         .map_err(|e| RuleConfigError::Rewriter(e, val.id.clone()))?;
-      reg.insert_rewriter(&val.id, rewriter);
+      // two rewriters with the same id: report it like any other badly configured rewriter
+      reg.insert_rewriter(&val.id, rewriter).map_err(|e| {
+        let err = RuleCoreError::Rule(crate::RuleSerializeError::MatchesReference(e));
+        RuleConfigError::Rewriter(err, val.id.clone())
+      })?;
     }
     check_rewriters_in_transform(rule, reg.get_rewriters())?;
     Ok(())
